@@ -38,7 +38,8 @@ CONTROL = {
 
 def program_sets(tier):
     """General menu at the common size bound + control-flow menu one size larger."""
-    return [("gen", dict()), ("ctl", dict(size=C.SIZE[tier] + 1, only=frozenset(CONTROL), key=("ctl", tier)))]
+    return [("gen", dict(tails=(True, False), key=("gen2", tier))),
+            ("ctl", dict(size=C.SIZE[tier] + 1, only=frozenset(CONTROL), key=("ctl", tier), tails=(True, False)))]
 
 
 def units(tier):
@@ -62,7 +63,7 @@ def selectors(info):
 
 def expected_stream(trace, names):
     out = []
-    for kind, name, value, form, sid in trace:
+    for kind, name, value, form, sid, _snap in trace:
         if kind == "meta":
             if name == "#error" and isinstance(value, tuple) and value[:2] == ("exc", "GeneratorExit"):
                 continue
@@ -181,7 +182,7 @@ def probe_merged(prog, info, sels, x, driver, part, merged, names):
     def on_meta(ev):
         for k, cap in ev.items():
             nm = cap.names[0] if cap.names else k
-            val = P.freeze(cap.values[0], 0, True) if nm in ("#value", "#error", "#yield", "#receive") else True
+            val = P.freeze(cap.values[0]) if nm in ("#value", "#error", "#yield", "#receive") else True
             merged.append((nm, val))
 
     def on_var(ev):
